@@ -42,10 +42,44 @@
                                                code had before does corrupt: split_writes_corrupt
   queued before Close => written before exit   drain_writes_all, drain_delivers
                                                (without draining: no_drain_can_lose)
+
+  Added after audit D (work package D):
+
+  the two directions of a CONNECTED pair (a5)  connected_limits, connected_streams,
+                                               connected_streams_norm
+  round trip only up to `norm` (b1)            stream_norm_on, stream_norm; instantiated with the
+                                               serializer models of C14 in
+                                               `Nexus/Frame/WpDStreamCodec.lean`
+                                               (Nexus.C15.stream_codec, connected_streams_codec)
+  truncated frames (a6)                        msg_truncated, header_truncated, msg_truncated_eof
+  any inbound mix of MSG/PING/PONG (a4, a7)    mixed_frames, bad_header_after_units
+  PONGs and the TWO receive limits (b2)        ping_answer_wellFormed, pong_over_peer_limit_closes,
+                                               ping_answer_closes_asker,
+                                               asymmetric_ping_pong_closes,
+                                               locked_writers_ok_two_limits,
+                                               no_interleaving_two_limits, no_interleaving_min,
+                                               duplex_no_interleaving,
+                                               no_interleaving_answerer_limit (false:
+                                               no_interleaving_answerer_limit_fails)
+
+  ABOUT THE PONG HYPOTHESIS of `locked_writers_ok` / `no_interleaving` (audit b2).  Their
+  hypothesis `∀ q ∈ pongs, q.wellFormed rl` speaks about `rl`, the receive limit of the side that
+  READS the PONGs (call it A).  It is NOT discharged by `ping_one_write`: that theorem (and
+  `ping_answer_wellFormed`, which says it in terms of `Pong.wellFormed`) is about the side that
+  ANSWERS the PING (B), and its `hle : p.length ≤ rl` is B's receive limit.  The answering code
+  caps a PING by B's recvLimit only (rawsocketpeer.go:288-293) and does not compare the PONG
+  with B's sendLimit (= A's recvLimit; rawsocketpeer.go:311-327, unlike `sendHandler` :238).
+  So what is guaranteed is `q.wellFormed rlB`; `q.wellFormed rlA` holds in addition exactly
+  when the peer A sent no PING longer than the limit A itself announced — an assumption about
+  the peer, made explicit in `no_interleaving_two_limits` / `duplex_no_interleaving`.  Without it
+  the statement is false (`no_interleaving_answerer_limit_fails`,
+  `asymmetric_ping_pong_closes`): A closes on the PONG and loses what B sent behind it.
+  nexus itself never sends a PING, so A is then not a nexus peer.
 -/
 import Nexus.Frame.HandshakeLemmas
 import Nexus.Frame.StreamLemmas
 import Nexus.Frame.WritersLemmas
+import Nexus.Frame.WpDStream
 
 namespace Nexus.C15
 open Nexus Nexus.Frame
@@ -191,6 +225,20 @@ theorem handshake_refusal_clean (b0 b1 b2 b3 : UInt8) (rs : Int) (p : UInt8) (rc
 
 example : (serverHandshake 0x00 0x11 0 0 0).result = .error "not a rawsocket handshake" := by decide
 
+/-- Audit a5.  From a successful `connect` ALONE (any protocol byte 0..255, any pair of configured
+    limits): the two peers that come out have the same serializer, and each one's send limit is
+    the receive limit of the other.  (`handshake_compose_any` needs `p ≤ 15`; a client with a
+    larger protocol byte never succeeds, because the reply's serializer nibble cannot equal it.) -/
+theorem connected_limits (p : UInt8) (rc rs : Int) (c s : PeerCfg) (rep : List UInt8)
+    (h : connect p rc rs = (.ok c, ⟨some rep, .ok s⟩)) :
+    c.serializer = s.serializer ∧ c.sendLimit = s.recvLimit ∧ s.sendLimit = c.recvLimit :=
+  WpD.connect_ok_limits p rc rs c s rep h
+
+/-- non-vacuity: asymmetric limits (client 600 -> announces 1024; server 0 -> announces 2^24) -/
+example : connect 2 600 0 =
+    (.ok ⟨some "MessagePackSerializer", 16777216, 1024⟩,
+     ⟨some [0x7f, 0xf2, 0, 0], .ok ⟨some "MessagePackSerializer", 1024, 16777216⟩⟩) := by decide
+
 /-! ## sender -/
 
 /-- The sender writes a message iff its serialisation is no longer than the limit the peer
@@ -279,6 +327,123 @@ theorem stream {M : Type} (ser : M → Option (List UInt8)) (de : List UInt8 →
 example : decodeStream (M := Nat) (fun p => some p.length) 512
     (sendAll (fun n => if n = 7 then none else some (List.replicate n 0x61)) 4 [3, 9, 7, 2]) =
     ([.deliver 3, .deliver 2], .hdr0) := by
+  decide
+
+/-- Audit b1.  `stream` under the codec hypothesis that C14 actually provides: the round trip
+    holds only UP TO a normalisation `norm` (`de (ser m) = some (norm m)`), and only for the
+    messages that are sent (`m ∈ msgs`, so side conditions on messages can be carried by the
+    list).  The reader then hands over `norm m` for exactly the messages that serialise and fit,
+    in order, and ends idle between frames. -/
+theorem stream_norm_on {M : Type} (ser : M → Option (List UInt8)) (de : List UInt8 → Option M)
+    (norm : M → M) (sl rl : Int) (hsl : sl ≤ rl) (msgs : List M)
+    (hrt : ∀ m, m ∈ msgs → ∀ p, ser m = some p → de p = some (norm m)) :
+    decodeStream de rl (sendAll ser sl msgs) =
+      ((msgs.filter (arrives ser sl)).map (fun m => Ev.deliver (norm m)), .hdr0) := by
+  unfold decodeStream sendAll
+  have key : ∀ msgs : List M,
+      (msgs.filterMap (fun m => (ser m).bind (frame sl))) =
+        ((msgs.filterMap ser).filterMap (frame sl)) := by
+    intro msgs
+    induction msgs with
+    | nil => rfl
+    | cons m ms ih =>
+      cases hs : ser m with
+      | none => simp [hs, ih]
+      | some p =>
+        cases hf : frame sl p <;> simp [hs, hf, ih]
+  have evs : ∀ msgs : List M, (∀ m, m ∈ msgs → ∀ p, ser m = some p → de p = some (norm m)) →
+      ((msgs.filterMap ser).filter (fits sl)).flatMap (payloadEvents de) =
+        (msgs.filter (arrives ser sl)).map (fun m => Ev.deliver (norm m)) := by
+    intro msgs
+    induction msgs with
+    | nil => intro _; rfl
+    | cons m ms ih =>
+      intro hrt
+      have ih' := ih (fun x hx => hrt x (List.mem_cons_of_mem _ hx))
+      cases hs : ser m with
+      | none =>
+        simp only [List.filterMap_cons, hs, List.filter_cons, arrives]
+        simpa using ih'
+      | some p =>
+        cases hf : fits sl p with
+        | false =>
+          simp only [List.filterMap_cons, hs, List.filter_cons, hf, arrives]
+          simpa using ih'
+        | true =>
+          simp only [List.filterMap_cons, hs, List.filter_cons, hf, arrives, if_true,
+            List.flatMap_cons, List.map_cons]
+          rw [ih']
+          simp [payloadEvents, hrt m List.mem_cons_self p hs]
+  rw [key]
+  have := run_frames de rl sl hsl (msgs.filterMap ser) []
+  rw [List.append_nil] at this
+  rw [this, evs msgs hrt]
+  simp only [run, List.append_nil]
+
+/-- Audit b1, in the form proposed there: the round-trip hypothesis for all messages. `stream`
+    is the case `norm = id`. -/
+theorem stream_norm {M : Type} (ser : M → Option (List UInt8)) (de : List UInt8 → Option M)
+    (norm : M → M) (hrt : ∀ m p, ser m = some p → de p = some (norm m))
+    (sl rl : Int) (hsl : sl ≤ rl) (msgs : List M) :
+    decodeStream de rl (sendAll ser sl msgs) =
+      ((msgs.filter (arrives ser sl)).map (Ev.deliver ∘ norm), .hdr0) :=
+  stream_norm_on ser de norm sl rl hsl msgs (fun m _ p h => hrt m p h)
+
+/-- non-vacuity: a serializer/deserializer pair that round-trips only up to `norm` (here: the
+    deserializer reports the length rounded down to an even number); 3 fits, 9 is too long for
+    the send limit 4, 7 does not serialise, 2 fits. -/
+example : ∀ (m : Nat) (p : List UInt8),
+    (fun n => if n = 7 then none else some (List.replicate n 0x61)) m = some p →
+      (fun q : List UInt8 => some (q.length / 2 * 2)) p = some ((fun n => n / 2 * 2) m) := by
+  intro m p h
+  by_cases h7 : m = 7
+  · simp [h7] at h
+  · simp only [if_neg h7, Option.some.injEq] at h
+    subst h
+    simp
+example : decodeStream (M := Nat) (fun q => some (q.length / 2 * 2)) 512
+    (sendAll (fun n => if n = 7 then none else some (List.replicate n 0x61)) 4 [3, 9, 7, 2]) =
+    ([.deliver 2, .deliver 2], .hdr0) := by
+  decide
+
+/-- Audit a5.  THE TWO DIRECTIONS OF ONE CONNECTION.  Whatever a client (any protocol byte, any
+    configured limit) and a server (any configured limit) negotiate: if both end with a peer, then
+    in BOTH directions the reader hands over exactly the messages that serialise and fit the
+    sender's limit, in order — the premise `sendLimit ≤ recvLimit` of `stream` is not assumed
+    but follows from the handshake (`connected_limits`). -/
+theorem connected_streams {M : Type} (ser : M → Option (List UInt8)) (de : List UInt8 → Option M)
+    (hrt : ∀ m p, ser m = some p → de p = some m)
+    (p : UInt8) (rc rs : Int) (c s : PeerCfg) (rep : List UInt8)
+    (h : connect p rc rs = (.ok c, ⟨some rep, .ok s⟩)) (up down : List M) :
+    decodeStream de s.recvLimit (sendAll ser c.sendLimit up) =
+        ((up.filter (arrives ser c.sendLimit)).map Ev.deliver, .hdr0) ∧
+      decodeStream de c.recvLimit (sendAll ser s.sendLimit down) =
+        ((down.filter (arrives ser s.sendLimit)).map Ev.deliver, .hdr0) := by
+  obtain ⟨_, h1, h2⟩ := connected_limits p rc rs c s rep h
+  exact ⟨stream ser de hrt _ _ (by omega) up, stream ser de hrt _ _ (by omega) down⟩
+
+/-- The same with a codec that round-trips up to `norm` (what C14 gives, audit b1). -/
+theorem connected_streams_norm {M : Type} (ser : M → Option (List UInt8)) (de : List UInt8 → Option M)
+    (norm : M → M) (p : UInt8) (rc rs : Int) (c s : PeerCfg) (rep : List UInt8)
+    (h : connect p rc rs = (.ok c, ⟨some rep, .ok s⟩)) (up down : List M)
+    (hup : ∀ m, m ∈ up → ∀ q, ser m = some q → de q = some (norm m))
+    (hdown : ∀ m, m ∈ down → ∀ q, ser m = some q → de q = some (norm m)) :
+    decodeStream de s.recvLimit (sendAll ser c.sendLimit up) =
+        ((up.filter (arrives ser c.sendLimit)).map (fun m => Ev.deliver (norm m)), .hdr0) ∧
+      decodeStream de c.recvLimit (sendAll ser s.sendLimit down) =
+        ((down.filter (arrives ser s.sendLimit)).map (fun m => Ev.deliver (norm m)), .hdr0) := by
+  obtain ⟨_, h1, h2⟩ := connected_limits p rc rs c s rep h
+  exact ⟨stream_norm_on ser de norm _ _ (by omega) up hup,
+    stream_norm_on ser de norm _ _ (by omega) down hdown⟩
+
+/-- non-vacuity of `connected_streams`: client limit 512, server limit 1024, messages = payload
+    lengths; 600 bytes pass client -> server (limit 1024) but not server -> client (limit 512). -/
+example : connect 1 512 1024 =
+    (.ok ⟨some "JSONSerializer", 1024, 512⟩,
+     ⟨some [0x7f, 0x11, 0, 0], .ok ⟨some "JSONSerializer", 512, 1024⟩⟩) := by decide
+example : arrives (M := Nat) (fun n => some (List.replicate n 0x61)) 1024 600 = true ∧
+    arrives (M := Nat) (fun n => some (List.replicate n 0x61)) 512 600 = false := by
+  simp only [arrives, fits, List.length_replicate]
   decide
 
 /-- The same for raw payloads, including ones that do not deserialise: those are skipped and the
@@ -451,6 +616,193 @@ theorem pong_ignored {M : Type} (de : List UInt8 → Option M) (rl : Int) (h0 l0
 example : decodeStream (M := List UInt8) some 512 [0x02, 0, 0, 2, 0xAA, 0xBB, 0, 0, 0, 1, 0x41] =
     ([.deliver [0x41]], .hdr0) := by decide
 
+/-! ## reader: any inbound mix of MSG / PING / PONG frames; truncated frames -/
+
+/-- Audit a4.  ANY sequence of inbound frames whose type bits are 0, 1 or 2 (upper bits of byte 0
+    arbitrary), whose length field is right and within the reader's limit — in any order and
+    number, e.g. PINGs between messages —, followed by anything: every frame has exactly its own
+    effect, in order (MSG: the deserialised payload is handed over, or skipped if it does not
+    deserialise; PING: ONE write of the PONG frame; PONG: nothing), and the reader is then where
+    it would be on `rest` alone.  (`stream_then` is the case "only MSG frames of our sender",
+    `ping`/`pong_ignored` the case of one frame.) -/
+theorem mixed_frames {M : Type} (de : List UInt8 → Option M) (rl : Int) (fs : List WpD.InFrame)
+    (hf : ∀ f, f ∈ fs → f.wellFormed rl) (rest : List UInt8) :
+    decodeStream de rl (fs.flatMap WpD.InFrame.bytes ++ rest) =
+      (fs.flatMap (WpD.InFrame.events de) ++ (decodeStream de rl rest).1,
+       (decodeStream de rl rest).2) :=
+  WpD.run_inframes de rl fs hf rest
+
+/-- ... so the messages handed over are the deserialisable payloads of the MSG frames, in order,
+    and the reader goroutine's write calls are one whole PONG frame per PING, in order. -/
+theorem mixed_frames_observed {M : Type} (de : List UInt8 → Option M) (rl : Int)
+    (fs : List WpD.InFrame) (hf : ∀ f, f ∈ fs → f.wellFormed rl) :
+    delivered (decodeStream de rl (fs.flatMap WpD.InFrame.bytes)).1 =
+        fs.flatMap (fun f => if f.h0.toNat % 8 = 0 then (de f.payload).toList else []) ∧
+      WpD.writeCalls (decodeStream de rl (fs.flatMap WpD.InFrame.bytes)).1 =
+        readerCalls (WpD.pongsOf fs) ∧
+      (decodeStream de rl (fs.flatMap WpD.InFrame.bytes)).2 = .hdr0 := by
+  refine ⟨?_, WpD.writeCalls_inframes de rl fs hf, ?_⟩
+  · have h := mixed_frames de rl fs hf []
+    rw [List.append_nil] at h
+    rw [h]
+    simp only [decodeStream, run, List.append_nil]
+    clear h hf
+    induction fs with
+    | nil => rfl
+    | cons f fs ih =>
+      rw [List.flatMap_cons, List.flatMap_cons, delivered_append, ih]
+      congr 1
+      unfold WpD.InFrame.events
+      by_cases h0 : f.h0.toNat % 8 = 0
+      · rw [if_pos h0, if_pos h0]
+        unfold payloadEvents
+        cases de f.payload <;> rfl
+      · rw [if_neg h0, if_neg h0]
+        by_cases h1 : f.h0.toNat % 8 = 1
+        · rw [if_pos h1]; rfl
+        · rw [if_neg h1]; rfl
+  · have h := mixed_frames de rl fs hf []
+    rw [List.append_nil] at h
+    rw [h]
+    rfl
+
+/-- the frames used in the examples: MSG 41, PING aa bb (byte 0 = 0x09: upper bits set), PONG 50 50,
+    MSG 42 -/
+def mixedExample : List WpD.InFrame :=
+  [⟨0, 0, 0, 1, [0x41]⟩, ⟨0x09, 0, 0, 2, [0xAA, 0xBB]⟩, ⟨2, 0, 0, 2, [0x50, 0x50]⟩, ⟨0, 0, 0, 1, [0x42]⟩]
+
+/-- non-vacuity of `mixed_frames` -/
+example : ∀ f, f ∈ mixedExample → f.wellFormed 512 := by
+  intro f hf
+  simp only [mixedExample, List.mem_cons, List.not_mem_nil, or_false] at hf
+  rcases hf with rfl | rfl | rfl | rfl <;>
+    exact ⟨by decide, by rw [bytesToInt_three]; rfl, by decide⟩
+example : decodeStream (M := List UInt8) some 512 (mixedExample.flatMap WpD.InFrame.bytes) =
+    ([.deliver [0x41], .wrote [2, 0, 0, 2, 0xAA, 0xBB], .deliver [0x42]], .hdr0) := by decide
+
+/-- Audit a7 (general form of `oversize_or_reserved`).  After ANY well-formed inbound traffic
+    (MSG, PING and PONG frames in any order), a header that announces more than the receive limit
+    (whatever its type) or whose type bits are 3..7 closes the connection: the events are those of
+    the frames before it, NOTHING that follows is delivered or answered, and the reason is
+    `oversize` when the length is over the limit (checked first), `reservedType` otherwise. -/
+theorem bad_header_after_units {M : Type} (de : List UInt8 → Option M) (rl : Int)
+    (fs : List WpD.InFrame) (hf : ∀ f, f ∈ fs → f.wellFormed rl) (h0 l0 l1 l2 : UInt8)
+    (rest : List UInt8) (hbad : Gen.bytesToInt [l0, l1, l2] > rl ∨ 3 ≤ h0.toNat % 8) :
+    decodeStream de rl (fs.flatMap WpD.InFrame.bytes ++ h0 :: l0 :: l1 :: l2 :: rest) =
+      (fs.flatMap (WpD.InFrame.events de),
+       .closed (if Gen.bytesToInt [l0, l1, l2] > rl then .oversize else .reservedType)) := by
+  rw [mixed_frames de rl fs hf]
+  unfold decodeStream
+  rw [WpD.run_bad_header de rl h0 l0 l1 l2 rest hbad]
+  simp
+
+/-- non-vacuity: a reserved-type header (type bits 5), then an oversize PONG header (length 513) -/
+example : decodeStream (M := List UInt8) some 512
+    (mixedExample.flatMap WpD.InFrame.bytes ++ [0x05, 0, 0, 0, 0, 0, 0, 1, 0x43]) =
+    ([.deliver [0x41], .wrote [2, 0, 0, 2, 0xAA, 0xBB], .deliver [0x42]], .closed .reservedType) := by
+  decide
+example : decodeStream (M := List UInt8) some 512
+    (mixedExample.flatMap WpD.InFrame.bytes ++ [0x02, 0, 2, 1, 0, 0, 0, 1, 0x43]) =
+    ([.deliver [0x41], .wrote [2, 0, 0, 2, 0xAA, 0xBB], .deliver [0x42]], .closed .oversize) := by
+  decide
+
+/-- Audit a6.  A MSG frame whose body is cut short (the header announces `n ≤ recvLimit` bytes,
+    only `p.length < n` have arrived), after any well-formed traffic: NOTHING is handed over for
+    that frame — the events are exactly those of the frames before it — and the reader is blocked
+    in `io.ReadFull(buf)` holding the `p.length` bytes it has, `n - p.length` still to come. -/
+theorem msg_truncated {M : Type} (de : List UInt8 → Option M) (rl : Int)
+    (fs : List WpD.InFrame) (hf : ∀ f, f ∈ fs → f.wellFormed rl) (h0 l0 l1 l2 : UInt8)
+    (n : Nat) (p : List UInt8) (ht : h0.toNat % 8 = 0)
+    (hn : Gen.bytesToInt [l0, l1, l2] = Int.ofNat n) (hle : (n : Int) ≤ rl) (hp : p.length < n) :
+    decodeStream de rl (fs.flatMap WpD.InFrame.bytes ++ h0 :: l0 :: l1 :: l2 :: p) =
+      (fs.flatMap (WpD.InFrame.events de), .body (n - 1 - p.length) p.reverse) := by
+  have hk : Gen.readerCase (Gen.frameType h0) = .msg := by
+    rw [readerCase_frameType, if_pos ht]
+  rw [mixed_frames de rl fs hf]
+  unfold decodeStream
+  rw [WpD.run_msg_truncated de rl h0 l0 l1 l2 n p hk hn hle hp]
+  simp
+
+example : decodeStream (M := List UInt8) some 512
+    (mixedExample.flatMap WpD.InFrame.bytes ++ [0x00, 0, 0, 5, 0x43, 0x44]) =
+    ([.deliver [0x41], .wrote [2, 0, 0, 2, 0xAA, 0xBB], .deliver [0x42]], .body 2 [0x44, 0x43]) := by
+  decide
+
+/-- The same from the sender's point of view: the frame our sender writes for a message, cut
+    anywhere inside its body (`4 ≤ k < length`), after any queue of earlier messages: the earlier
+    ones that fit are handed over, of the cut one nothing. -/
+theorem sender_frame_cut {M : Type} (de : List UInt8 → Option M) (sl rl : Int) (hsl : sl ≤ rl)
+    (payloads : List (List UInt8)) (q f : List UInt8) (hfr : frame sl q = some f)
+    (j : Nat) (hj : j + 4 < f.length) :
+    decodeStream de rl ((payloads.filterMap (frame sl)).flatten ++ f.take (j + 4)) =
+      ((payloads.filter (fits sl)).flatMap (payloadEvents de),
+       .body (q.length - 1 - j) (q.take j).reverse) := by
+  have hfit : fits sl q = true := by
+    cases h : fits sl q with
+    | true => rfl
+    | false => rw [frame_none sl q h] at hfr; cases hfr
+  obtain ⟨a, b, c, hfr', hlen⟩ := frame_some sl q hfit
+  rw [hfr] at hfr'
+  have hf : f = 0 :: a :: b :: c :: q := Option.some.inj hfr'
+  subst hf
+  have hjq : j < q.length := by simpa using hj
+  have hle : (q.length : Int) ≤ rl := by
+    have := ((fits_iff sl q).mp hfit).1
+    omega
+  have htake : (0 :: a :: b :: c :: q).take (j + 4) = 0 :: a :: b :: c :: q.take j := by
+    simp [List.take_succ_cons]
+  rw [htake]
+  unfold decodeStream
+  rw [run_frames de rl sl hsl payloads,
+    WpD.run_msg_truncated de rl 0 a b c q.length (q.take j) readerCase_zero hlen hle
+      (by rw [List.length_take]; omega)]
+  simp only [List.append_nil, List.length_take]
+  rw [Nat.min_eq_left (Nat.le_of_lt hjq)]
+
+example : frame 512 [0x41, 0x42, 0x43] = some [0, 0, 0, 3, 0x41, 0x42, 0x43] := by decide
+example : decodeStream (M := List UInt8) some 512
+    (([[0x40]].filterMap (frame 512)).flatten ++ [0, 0, 0, 3, 0x41, 0x42, 0x43].take (1 + 4)) =
+    ([.deliver [0x40]], .body 1 [0x41]) := by decide
+
+/-- Fewer than four bytes of a header: no event, the reader waits in `io.ReadFull(header)`. -/
+theorem header_truncated {M : Type} (de : List UInt8 → Option M) (rl : Int)
+    (fs : List WpD.InFrame) (hf : ∀ f, f ∈ fs → f.wellFormed rl) (bs : List UInt8)
+    (h : bs.length < 4) :
+    (decodeStream de rl (fs.flatMap WpD.InFrame.bytes ++ bs)).1 =
+        fs.flatMap (WpD.InFrame.events de) ∧
+      (decodeStream de rl (fs.flatMap WpD.InFrame.bytes ++ bs)).2.isClosed = false := by
+  rw [mixed_frames de rl fs hf]
+  unfold decodeStream
+  rw [WpD.run_header_short de rl bs h]
+  constructor
+  · simp
+  · match bs, h with
+    | [], _ => rfl
+    | [_], _ => rfl
+    | [_, _], _ => rfl
+    | [_, _, _], _ => rfl
+    | _ :: _ :: _ :: _ :: _, h => simp at h; omega
+
+example : decodeStream (M := List UInt8) some 512 [0, 0, 0, 1, 0x41, 0x00, 0x00] =
+    ([.deliver [0x41]], .hdr2 0 0) := by decide
+
+/-- ... and when the stream ENDS there (EOF is not an input of the reader model; `WpD.readerAtEOF`
+    is the proposed reading of rawsocketpeer.go:269-286, :299-304, see the report): the reader
+    ends "inside a frame", having handed over the earlier messages only. -/
+theorem msg_truncated_eof {M : Type} (de : List UInt8 → Option M) (rl : Int)
+    (fs : List WpD.InFrame) (hf : ∀ f, f ∈ fs → f.wellFormed rl) (h0 l0 l1 l2 : UInt8)
+    (n : Nat) (p : List UInt8) (ht : h0.toNat % 8 = 0)
+    (hn : Gen.bytesToInt [l0, l1, l2] = Int.ofNat n) (hle : (n : Int) ≤ rl) (hp : p.length < n) :
+    WpD.readerAtEOF (decodeStream de rl (fs.flatMap WpD.InFrame.bytes ++ h0 :: l0 :: l1 :: l2 :: p)).2 =
+        .eofInsideFrame (.body (n - 1 - p.length) p.reverse) ∧
+      delivered (decodeStream de rl (fs.flatMap WpD.InFrame.bytes ++ h0 :: l0 :: l1 :: l2 :: p)).1 =
+        delivered (decodeStream de rl (fs.flatMap WpD.InFrame.bytes)).1 := by
+  rw [msg_truncated de rl fs hf h0 l0 l1 l2 n p ht hn hle hp]
+  have h := mixed_frames de rl fs hf []
+  rw [List.append_nil] at h
+  rw [h]
+  exact ⟨rfl, by simp [decodeStream, run]⟩
+
 /-! ## two goroutines write to one connection -/
 
 /-- What `net.Conn` gives: the log is a merge of the two goroutines' call sequences, so each
@@ -487,7 +839,12 @@ theorem sender_alone_never_interleaves {M : Type} (de : List UInt8 → Option M)
 def f18PongUnit : Pong := ⟨0, 0, 2, [0x50, 0x50]⟩
 
 /-- When whole frames are the atomic unit, every interleaving is harmless: the other side gets
-    exactly the messages that fit, in order, and skips the PONGs. -/
+    exactly the messages that fit, in order, and skips the PONGs.
+    NOTE on `hw` (audit b2): `rl` is the limit of the side that READS these PONGs.  The code that
+    writes them guarantees well-formedness w.r.t. its OWN receive limit only
+    (`ping_answer_wellFormed`); `hw` holds in addition iff the reading side sent no PING longer
+    than the limit it announced — see `locked_writers_ok_two_limits` for the version whose
+    hypotheses say exactly that, and `no_interleaving_answerer_limit_fails` for why it is needed. -/
 theorem locked_writers_ok {M : Type} (de : List UInt8 → Option M) (sl rl : Int) (hsl : sl ≤ rl)
     (payloads : List (List UInt8)) (pongs : List Pong) (hw : ∀ q, q ∈ pongs → q.wellFormed rl)
     (units : List WUnit)
@@ -527,7 +884,11 @@ example : decodeStream (M := List UInt8) some 512
     goroutines' write calls (any `Merge`), for every queue of messages, every sequence of answered
     PINGs and every deserializer, the other side receives exactly the sender's messages that fit,
     intact and in order — because, with the write calls the source makes today
-    (`Gen.senderWriteParts`, `Gen.pongWriteParts`), every frame is one atomic `Write`. -/
+    (`Gen.senderWriteParts`, `Gen.pongWriteParts`), every frame is one atomic `Write`.
+    NOTE on `hw` (audit b2): it is an ASSUMPTION ABOUT THE PEER, not something `ping_one_write`
+    discharges — `rl` here is the limit of the reader of the PONGs, `ping_one_write`'s `rl` is the
+    limit of their writer.  `no_interleaving_two_limits` / `duplex_no_interleaving` state it with
+    both limits. -/
 theorem no_interleaving {M : Type} (de : List UInt8 → Option M) (sl rl : Int) (hsl : sl ≤ rl)
     (payloads : List (List UInt8)) (pongs : List Pong) (hw : ∀ q, q ∈ pongs → q.wellFormed rl)
     (log : List WriteCall) (h : Merge (senderCalls sl payloads) (readerCalls pongs) log) :
@@ -582,6 +943,223 @@ example : Merge (senderCalls 512 [f18Payload]) [] (senderCalls 512 [f18Payload])
   have hs : senderCalls 512 [f18Payload] = [⟨.sender, 0 :: 0 :: 0 :: 8 :: f18Payload⟩] := by decide
   rw [hs]
   exact .left .nil
+
+/-! ### PONGs and the two receive limits (audit b2)
+
+  Two sides: B answers PINGs (its reader goroutine writes the PONGs, its sender goroutine writes
+  messages, limit `sl` = what A announced); A reads what B writes, with receive limit `rlA`;
+  B's own receive limit is `rlB`.  After the handshake `sl = rlA` (`connected_limits`), and `rlA`,
+  `rlB` are unrelated. -/
+
+/-- What the answering reader guarantees about a PONG it writes: it is ONE write call carrying
+    the whole frame `pongFrame ⟨l0, l1, l2, p⟩`, and that PONG is well formed w.r.t. the limit
+    `rl` of the reader THAT ANSWERS (hypothesis `hle`, checked at rawsocketpeer.go:288-293).
+    Nothing here says anything about the limit of the side that will read the PONG. -/
+theorem ping_answer_wellFormed {M : Type} (de : List UInt8 → Option M) (rl : Int)
+    (h0 l0 l1 l2 : UInt8) (p rest : List UInt8) (ht : h0.toNat % 8 = 1)
+    (hn : Gen.bytesToInt [l0, l1, l2] = Int.ofNat p.length) (hle : (p.length : Int) ≤ rl) :
+    (decodeStream de rl (h0 :: l0 :: l1 :: l2 :: (p ++ rest))).1 =
+        Ev.wrote (pongFrame ⟨l0, l1, l2, p⟩) :: (decodeStream de rl rest).1 ∧
+      (⟨l0, l1, l2, p⟩ : Pong).wellFormed rl :=
+  ⟨ping_one_write de rl h0 l0 l1 l2 p rest ht hn hle, hn, hle⟩
+
+example : (decodeStream (M := List UInt8) some 512 [0x01, 0, 0, 2, 0xAA, 0xBB]).1 =
+    [.wrote (pongFrame ⟨0, 0, 2, [0xAA, 0xBB]⟩)] := by decide
+
+/-- Audit b2.  A PONG whose payload is longer than the READER's receive limit makes the reader
+    close with `oversize` (the length check comes before the type switch,
+    rawsocketpeer.go:288-293), and nothing that follows it on the connection is read. -/
+theorem pong_over_peer_limit_closes {M : Type} (de : List UInt8 → Option M) (rlA : Int)
+    (q : Pong) (rest : List UInt8)
+    (hn : Gen.bytesToInt [q.l0, q.l1, q.l2] = Int.ofNat q.payload.length)
+    (h : (q.payload.length : Int) > rlA) :
+    decodeStream de rlA (pongFrame q ++ rest) = ([], .closed .oversize) :=
+  WpD.run_pong_oversize de rlA q rest hn h
+
+/-- non-vacuity: a 3-byte PONG for a reader with limit 2, a message behind it -/
+example : Gen.bytesToInt [0, 0, 3] = Int.ofNat ([0x50, 0x50, 0x50] : List UInt8).length ∧
+    ((([0x50, 0x50, 0x50] : List UInt8).length : Int) > 2) := by
+  constructor
+  · rw [bytesToInt_three]; rfl
+  · decide
+example : decodeStream (M := List UInt8) some 2 (pongFrame ⟨0, 0, 3, [0x50, 0x50, 0x50]⟩ ++ [0, 0, 0, 1, 0x41]) =
+    ([], .closed .oversize) := by decide
+
+/-- Both halves together, for ALL limits and payloads: a PING whose length lies in
+    `(rlA, rlB]` is ACCEPTED and ANSWERED by B (one write, B keeps reading), the PONG is well
+    formed for B's limit but not for A's, and A, reading it — whatever B sent behind it —,
+    closes the connection. -/
+theorem ping_answer_closes_asker {M N : Type} (deB : List UInt8 → Option M)
+    (deA : List UInt8 → Option N) (rlA rlB : Int) (h0 l0 l1 l2 : UInt8) (p restB restA : List UInt8)
+    (ht : h0.toNat % 8 = 1) (hn : Gen.bytesToInt [l0, l1, l2] = Int.ofNat p.length)
+    (hB : (p.length : Int) ≤ rlB) (hA : rlA < (p.length : Int)) :
+    (decodeStream deB rlB (h0 :: l0 :: l1 :: l2 :: (p ++ restB))).1 =
+        Ev.wrote (pongFrame ⟨l0, l1, l2, p⟩) :: (decodeStream deB rlB restB).1 ∧
+      (decodeStream deB rlB (h0 :: l0 :: l1 :: l2 :: (p ++ restB))).2 = (decodeStream deB rlB restB).2 ∧
+      (⟨l0, l1, l2, p⟩ : Pong).wellFormed rlB ∧ ¬ (⟨l0, l1, l2, p⟩ : Pong).wellFormed rlA ∧
+      decodeStream deA rlA (pongFrame ⟨l0, l1, l2, p⟩ ++ restA) = ([], .closed .oversize) := by
+  obtain ⟨hw, hwf⟩ := ping_answer_wellFormed deB rlB h0 l0 l1 l2 p restB ht hn hB
+  refine ⟨hw, (ping deB rlB h0 l0 l1 l2 p restB ht hn hB).2.2, hwf, ?_, ?_⟩
+  · intro hwa
+    have : (p.length : Int) ≤ rlA := hwa.2
+    omega
+  · exact pong_over_peer_limit_closes deA rlA ⟨l0, l1, l2, p⟩ restA hn hA
+
+/-- The 600-byte PING payload of the witness. -/
+def asymPayload : List UInt8 := List.replicate 600 0x50
+
+/-- The PONG that answers it (length bytes 00 02 58 = 600). -/
+def asymPong : Pong := ⟨0, 2, 88, asymPayload⟩
+
+theorem asymPayload_length : asymPayload.length = 600 := by
+  unfold asymPayload
+  exact List.length_replicate
+
+theorem asymPong_len : Gen.bytesToInt [0, 2, 88] = Int.ofNat asymPayload.length := by
+  rw [bytesToInt_three, asymPayload_length]
+  rfl
+
+/-- Audit b2, THE WITNESS with negotiated asymmetric limits.  Client A is configured with
+    receive limit 512, server B with 1024; the handshake succeeds and gives A (send 1024,
+    recv 512), B (send 512, recv 1024).  A sends a PING of 600 bytes — more than A itself
+    announced, but within what B announced, so B may not refuse it.  B's reader accepts it and
+    answers with ONE write of the 604-byte PONG frame and goes on reading (rawsocketpeer.go:289:
+    `length > rs.recvLimit` is 600 > 1024, false; :311-327: no comparison with `rs.sendLimit`,
+    which is 512).  A's reader sees a header announcing 600 > 512 and closes
+    (rawsocketpeer.go:289-293).  The message `[0x41]` that B's sender wrote right behind the
+    PONG — it fits B's send limit — is never delivered.  So with asymmetric limits the
+    hypothesis `hw` of `no_interleaving` is not implied by anything the answering side does. -/
+theorem asymmetric_ping_pong_closes :
+    connect 1 512 1024 =
+        (.ok ⟨some "JSONSerializer", 1024, 512⟩,
+         ⟨some [0x7f, 0x11, 0, 0], .ok ⟨some "JSONSerializer", 512, 1024⟩⟩) ∧
+      decodeStream (M := List UInt8) some 1024 (0x01 :: 0 :: 2 :: 88 :: asymPayload) =
+        ([.wrote (pongFrame asymPong)], .hdr0) ∧
+      asymPong.wellFormed 1024 ∧ ¬ asymPong.wellFormed 512 ∧
+      frame 512 [0x41] = some [0, 0, 0, 1, 0x41] ∧
+      decodeStream (M := List UInt8) some 512 (pongFrame asymPong ++ [0, 0, 0, 1, 0x41]) =
+        ([], .closed .oversize) := by
+  have hlen : asymPayload.length = 600 := asymPayload_length
+  have hB : (asymPayload.length : Int) ≤ 1024 := by rw [hlen]; decide
+  have hA : (512 : Int) < (asymPayload.length : Int) := by rw [hlen]; decide
+  obtain ⟨h1, h2, h3, h4, h5⟩ :=
+    ping_answer_closes_asker (M := List UInt8) (N := List UInt8) some some 512 1024 0x01 0 2 88
+      asymPayload [] [0, 0, 0, 1, 0x41] (by decide) asymPong_len hB hA
+  rw [List.append_nil] at h1 h2
+  refine ⟨by decide, ?_, h3, h4, by decide, h5⟩
+  exact Prod.ext h1 h2
+
+/-- `locked_writers_ok` with the two limits kept apart.  `hans` is what B's reader guarantees
+    for every PONG it writes (`ping_answer_wellFormed`, `WpD.pongsOf_wellFormed`); `hpeer` is the
+    ASSUMPTION ABOUT THE PEER A that is really needed: A sent no PING longer than the receive
+    limit A itself announced. -/
+theorem locked_writers_ok_two_limits {M : Type} (de : List UInt8 → Option M) (sl rlA rlB : Int)
+    (hsl : sl ≤ rlA) (payloads : List (List UInt8)) (pongs : List Pong)
+    (hans : ∀ q, q ∈ pongs → q.wellFormed rlB)
+    (hpeer : ∀ q, q ∈ pongs → (q.payload.length : Int) ≤ rlA)
+    (units : List WUnit)
+    (h : Merge ((payloads.filter (fits sl)).map WUnit.msg) (pongs.map WUnit.pong) units) :
+    decodeStream de rlA (units.flatMap (WUnit.bytes sl)) =
+      ((payloads.filter (fits sl)).flatMap (payloadEvents de), .hdr0) :=
+  locked_writers_ok de sl rlA hsl payloads pongs (fun q hq => ⟨(hans q hq).1, hpeer q hq⟩) units h
+
+/-- `no_interleaving` with the two limits kept apart (hypotheses as in
+    `locked_writers_ok_two_limits`): whatever the scheduling of B's two goroutines, A receives
+    exactly B's messages that fit, intact and in order, PROVIDED A sent no PING longer than its
+    own announced limit. -/
+theorem no_interleaving_two_limits {M : Type} (de : List UInt8 → Option M) (sl rlA rlB : Int)
+    (hsl : sl ≤ rlA) (payloads : List (List UInt8)) (pongs : List Pong)
+    (hans : ∀ q, q ∈ pongs → q.wellFormed rlB)
+    (hpeer : ∀ q, q ∈ pongs → (q.payload.length : Int) ≤ rlA)
+    (log : List WriteCall) (h : Merge (senderCalls sl payloads) (readerCalls pongs) log) :
+    decodeStream de rlA (wire log) = ((payloads.filter (fits sl)).flatMap (payloadEvents de), .hdr0) :=
+  no_interleaving de sl rlA hsl payloads pongs (fun q hq => ⟨(hans q hq).1, hpeer q hq⟩) log h
+
+/-- The same with the hypothesis in one piece: every answered PING was no longer than the
+    SMALLER of the two receive limits. -/
+theorem no_interleaving_min {M : Type} (de : List UInt8 → Option M) (sl rlA rlB : Int)
+    (hsl : sl ≤ rlA) (payloads : List (List UInt8)) (pongs : List Pong)
+    (hw : ∀ q, q ∈ pongs → q.wellFormed (min rlA rlB))
+    (log : List WriteCall) (h : Merge (senderCalls sl payloads) (readerCalls pongs) log) :
+    decodeStream de rlA (wire log) = ((payloads.filter (fits sl)).flatMap (payloadEvents de), .hdr0) :=
+  no_interleaving de sl rlA hsl payloads pongs
+    (fun q hq => ((WpD.wellFormed_min q rlA rlB).mp (hw q hq)).1) log h
+
+/-- non-vacuity (limits 512 and 1024, the 2-byte PONG of the earlier examples) -/
+example : f18PongUnit.wellFormed (min 512 1024) := by
+  refine ⟨?_, by decide⟩
+  rw [show f18PongUnit.l0 = 0 from rfl, show f18PongUnit.l1 = 0 from rfl,
+    show f18PongUnit.l2 = 2 from rfl, bytesToInt_three]
+  rfl
+
+/-- BOTH DIRECTIONS TOGETHER, with the PONGs taken from B's reader instead of assumed.
+    A sends B any well-formed traffic `fs` (MSG, PING, PONG frames, within B's limit `rlB`);
+    B's reader goroutine makes the write calls it makes for that traffic
+    (`WpD.writeCalls` of its events — one PONG per PING, `mixed_frames_observed`); B's sender
+    goroutine writes `payloads`; the calls of the two goroutines are scheduled in any way.  If
+    none of A's PINGs is longer than the limit A announced (`hpeer`), A receives exactly B's
+    messages that fit, intact and in order.  No hypothesis mentions `Pong.wellFormed`. -/
+theorem duplex_no_interleaving {M N : Type} (deA : List UInt8 → Option M)
+    (deB : List UInt8 → Option N) (sl rlA rlB : Int) (hsl : sl ≤ rlA)
+    (fs : List WpD.InFrame) (hfs : ∀ f, f ∈ fs → f.wellFormed rlB)
+    (hpeer : ∀ f, f ∈ fs → f.h0.toNat % 8 = 1 → (f.payload.length : Int) ≤ rlA)
+    (payloads : List (List UInt8)) (log : List WriteCall)
+    (h : Merge (senderCalls sl payloads)
+      (WpD.writeCalls (decodeStream deB rlB (fs.flatMap WpD.InFrame.bytes)).1) log) :
+    decodeStream deA rlA (wire log) =
+      ((payloads.filter (fits sl)).flatMap (payloadEvents deA), .hdr0) := by
+  unfold decodeStream at h
+  rw [WpD.writeCalls_inframes deB rlB fs hfs] at h
+  exact no_interleaving deA sl rlA hsl payloads (WpD.pongsOf fs)
+    (WpD.pongsOf_wellFormed_other rlB rlA fs hfs hpeer) log h
+
+/-- non-vacuity of `duplex_no_interleaving`: A sent `mixedExample` (one 2-byte PING); B's PONG is
+    scheduled between B's two messages -/
+example : ∀ f, f ∈ mixedExample → f.h0.toNat % 8 = 1 → (f.payload.length : Int) ≤ 512 := by
+  intro f hf _
+  simp only [mixedExample, List.mem_cons, List.not_mem_nil, or_false] at hf
+  rcases hf with rfl | rfl | rfl | rfl <;> decide
+example : Merge (senderCalls 512 [[0x41], [0x42]])
+    (WpD.writeCalls (decodeStream (M := List UInt8) some 1024 (mixedExample.flatMap WpD.InFrame.bytes)).1)
+    [⟨.sender, [0, 0, 0, 1, 0x41]⟩, ⟨.reader, [2, 0, 0, 2, 0xAA, 0xBB]⟩, ⟨.sender, [0, 0, 0, 1, 0x42]⟩] := by
+  have hs : senderCalls 512 [[0x41], [0x42]] =
+      [⟨.sender, [0, 0, 0, 1, 0x41]⟩, ⟨.sender, [0, 0, 0, 1, 0x42]⟩] := by decide
+  have hr : WpD.writeCalls (decodeStream (M := List UInt8) some 1024
+      (mixedExample.flatMap WpD.InFrame.bytes)).1 = [⟨.reader, [2, 0, 0, 2, 0xAA, 0xBB]⟩] := by decide
+  rw [hs, hr]
+  exact .left (.right (.left .nil))
+
+/-- The statement one would get by feeding `no_interleaving` with what the answering side
+    guarantees (PONGs well formed w.r.t. the ANSWERER's limit `rlB`) and nothing else. -/
+def no_interleaving_answerer_limit : Prop :=
+  ∀ (sl rlA rlB : Int) (payloads : List (List UInt8)) (pongs : List Pong) (log : List WriteCall),
+    sl ≤ rlA → (∀ q, q ∈ pongs → q.wellFormed rlB) →
+    Merge (senderCalls sl payloads) (readerCalls pongs) log →
+    delivered (decodeStream (M := List UInt8) some rlA (wire log)).1 = payloads.filter (fits sl)
+
+/-- It is FALSE: limits sl = rlA = 512, rlB = 1024 (as negotiated in
+    `asymmetric_ping_pong_closes`), the 600-byte PONG written before the message `[0x41]`: A closes
+    on the PONG and the message is lost.  The same happens in the Go code
+    (rawsocketpeer.go:289-293 on A's side, :311-327 on B's side) when A is a peer that sends
+    such a PING; nexus never sends PINGs, so A is not a nexus peer. -/
+theorem no_interleaving_answerer_limit_fails : ¬ no_interleaving_answerer_limit := by
+  intro hall
+  have hlen : asymPayload.length = 600 := asymPayload_length
+  have hwf : ∀ q, q ∈ [asymPong] → q.wellFormed 1024 := by
+    intro q hq
+    have : q = asymPong := by simpa using hq
+    subst this
+    exact ⟨asymPong_len, by show (asymPayload.length : Int) ≤ 1024; rw [hlen]; decide⟩
+  have hm := WpD.merge_right_first (senderCalls 512 [[0x41]]) (readerCalls [asymPong])
+  have h := hall 512 512 1024 [[0x41]] [asymPong] _ (Int.le_refl _) hwf hm
+  rw [wire_append, WpD.readerCalls_cons] at h
+  have hw : wire (⟨.reader, pongFrame asymPong⟩ :: readerCalls []) = pongFrame asymPong := by
+    simp [wire, readerCalls]
+  rw [hw, pong_over_peer_limit_closes some 512 asymPong _ asymPong_len
+    (by show (asymPayload.length : Int) > 512; rw [hlen]; decide)] at h
+  have hf : ([[0x41]] : List (List UInt8)).filter (fits 512) = [[0x41]] := by decide
+  rw [hf] at h
+  cases h
 
 /-! ### the two-call shape the code had before -/
 
